@@ -372,7 +372,7 @@ impl Monitor for C12 {
                 Self::check_common(&d, 64, "decompress (frame around a garbage container)", &format!("container {:02x?}", c), &c, ctx);
             }
         }
-        if self.tier == Tier::Thorough && k < 2 {
+        if k < 2 {
             // a file without embedded streams whose expanded form is exactly 128 MiB (k = 0) or one byte less:
             // both are inside the premise "at most 128 MiB" and must round-trip
             let exp_target: usize = (128 << 20) - k as usize;
